@@ -64,11 +64,22 @@ def gen_history(rng, S, nops):
             op = {"op": "sub_component" if rng.random() < 0.4 else "sub", "initial": initial, "cookie_header": None, "accept_language": None}
             if parent is not None:
                 op["parent"] = parent
+            same_tick = rng.random() < 0.4
+            if same_tick:
+                op["notick"] = True
             ops.append(op)
             regs.append(initial or (regs[handle_reg[parent]] if parent is not None else S["default"]))
             handle_reg.append(len(regs) - 1)
             handle_base.append(True)
             depth.append((depth[parent] + 1) if parent is not None else 0)
+            if same_tick:
+                # the locale is set in the very tick the context was created (before its effects are flushed)
+                expected.append(([regs[r_] for r_ in handle_reg], [acc_want(a, regs, handle_reg) for a in accessors]))
+                h = len(handle_reg) - 1
+                l = gen.pick(rng, names)
+                tracked = rng.random() < 0.7
+                ops.append({"op": "set" if tracked else "set_untracked", "ctx": h, "locale": l})
+                regs[handle_reg[h]] = l
         else:
             if rng.random() < 0.45:
                 h = rng.randrange(len(handle_reg))
